@@ -270,9 +270,11 @@ def run(ck):
     n = 60 if ck.tier == 'quick' else 800
     dis, viol = [], []
     worst_int = 0.0
-    for i in range(n):
+    import c04
+    cg = c04.curved_on_ground()        # arcs standing on an ideal ground plane (ends on it, inner segment ends touching it)
+    for i in range(n + len(cg)):
         big = (i == 3) or (i % 100 == 53)
-        ant = long_wire(rng) if big else antgen.gen_curved(rng, antgen.CURVED_KINDS[(i // 6) % 5]) if i % 6 == 4 else \
+        ant = cg[i - n] if i >= n else long_wire(rng) if big else antgen.gen_curved(rng, antgen.CURVED_KINDS[(i // 6) % 5]) if i % 6 == 4 else \
             antgen.gen_antenna(rng, max_pulses=18 if ck.tier == 'quick' else 60)
         m = antgen.build(ant)
         ss = rng.randrange(10 ** 9)
